@@ -370,8 +370,14 @@ def gen_sig(r):
         pending_absent = set()
         if last and k > 0.9:
             # raw scan types, last position, \relax-terminated
-            raw = r.choice(['Number', 'Dimen', 'Glue'])
+            raw = r.choice(['Number', 'Dimen', 'Glue', 'MuDimen', 'MuGlue'])
             sig.append('%s:%s' % (name, raw))
+            if raw in ('MuDimen', 'MuGlue'):
+                txt = r.choice(['3mu', '1.5mu', '18mu']) + ('' if raw == 'MuDimen' else r.choice(['', ' plus 1mu', ' plus 2mu minus 1mu']))
+                call += sp + txt + '\\relax '
+                expect[name] = ['mu', txt, raw]
+                feats.append('raw-' + raw)
+                continue
             if raw == 'Number':
                 v = r.choice([0, 42, -7])
                 call += sp + str(v) + '\\relax '
@@ -385,8 +391,41 @@ def gen_sig(r):
             feats.append('raw-' + raw)
             continue
         if k > 0.8:
-            t2 = r.choice(['Tok', 'cs'])
+            t2 = r.choice(['Tok', 'cs', 'XTok', 'XTok', 'url', 'Args'])
+            if t2 == 'Args' and not last:
+                t2 = 'Tok'
             sig.append('%s:%s' % (name, t2))
+            if t2 == 'XTok':
+                # an expanded token: a character, a braced group, an undefined-here command, a macro of several tokens
+                form = r.choice(['char', 'group', 'cs', 'multi'])
+                if form == 'char':
+                    call += sp + 'x'
+                    expect[name] = ['source', 'x']
+                elif form == 'group':
+                    call += sp + '{WaWb}'
+                    expect[name] = ['text', 'WaWb']
+                elif form == 'cs':
+                    call += sp + '\\zqfoo '
+                    expect[name] = ['source', '\\zqfoo']
+                else:
+                    call += sp + '\\zqtwo '
+                    expect[name] = ['text', 'WcWd']
+                feats.append('XTok/' + form)
+                continue
+            if t2 == 'url':
+                u = r.choice(['a#b~c%d&e', 'http://x.org/~u/?q=1&r=2#f', 'Wa%Wb'])
+                call += sp + '{' + u + '}'
+                expect[name] = ['text', u]
+                feats.append('url')
+                continue
+            if t2 == 'Args':
+                ptxt = r.choice(['#1#2', '#1.#2', '', '#1;#2!'])
+                call += sp + ptxt + '{Wa}'
+                sig.append('zz')
+                expect[name] = ['source', ptxt]
+                expect['zz'] = ['text', 'Wa']
+                feats.append('Args')
+                continue
             if t2 == 'Tok':
                 tok = r.choice(['\\zqfoo ', 'x', '\\zqbar '])
                 call += sp + tok
@@ -591,6 +630,7 @@ def run_sig(case, st):
     doc.context.addGlobal('zqmac', cls)
     for n in ('zqfoo', 'zqbar'):
         doc.context.addGlobal(n, type(n, (plasTeX.Command,), {}))
+    doc.context.newdef('zqtwo', '', 'WcWd')
     src = 'Aq1 \\zqmac' + (' ' if (case['call'][:1].isalpha() or not case['call']) else '') + case['call'] + 'Zq9'
     for f in case['feats']:
         st.feature('argument', f)
@@ -622,6 +662,10 @@ def run_sig(case, st):
                 ok = False
         elif kind == 'tok':
             ok = str(got) == exp[1]
+        elif kind == 'mu':
+            # math units have no reference value outside plasTeX: the type and the natural part (in mu) are compared
+            cls_ = plasTeX.mudimen if exp[2] == 'MuDimen' else plasTeX.muglue
+            ok = isinstance(got, cls_) and abs(float(plasTeX.mudimen(got)) - float(plasTeX.mudimen(exp[1].split(' ')[0]))) < 1
         elif kind == 'int':
             ok = isinstance(got, int) and got == exp[1]
         elif kind == 'float':
@@ -649,7 +693,8 @@ def run_sig(case, st):
         t = L.Table(L.default_table())
         a = [x for x in L.tokenize(node.argSource, t) if x[0] != 10]
         b = [x for x in L.tokenize(case['call'], t) if x[0] != 10]
-        if a != b and not any(f.startswith('raw-') for f in case['feats']):
+        # (an expanded-token argument records the source of its expansion, by design: not compared)
+        if a != b and not any(f.startswith(('raw-', 'XTok/multi')) for f in case['feats']):
             bad.append('argSource %r does not re-tokenise to the invocation %r' % (node.argSource, case['call']))
     if bad:
         st.violation(classify_sig(case, badname, 'binding'), case, 'args=%r call=%r: %s' % (case['sig'], case['call'], '; '.join(bad[:3])))
